@@ -95,10 +95,13 @@ impl Stats {
         }
     }
     pub fn violation(&mut self, class: impl Into<String>, summary: impl Into<String>, detail: J) {
-        if self.violations.len() < 200 {
-            self.violations.push(Violation { class: class.into(), summary: summary.into(), detail });
-        } else {
-            self.inc("violations_dropped_over_cap");
+        // the cap is per root-cause class, so that a frequent (possibly known) class can never
+        // crowd out a different one
+        let class = class.into();
+        let n = self.violations.iter().filter(|v| v.class == class).count();
+        self.add(&format!("violations_seen[{class}]"), 1);
+        if n < 25 {
+            self.violations.push(Violation { class, summary: summary.into(), detail });
         }
     }
     pub fn merge(&mut self, o: Stats) {
@@ -373,8 +376,10 @@ pub fn finish(cfg: &Config, started: Instant, out: Outcome) -> i32 {
     }
     {
         let mut by_class: BTreeMap<String, u64> = BTreeMap::new();
-        for v in &all_violations {
-            *by_class.entry(v.class.clone()).or_insert(0) += 1;
+        for (k, n) in &st.counters {
+            if let Some(c) = k.strip_prefix("violations_seen[").and_then(|x| x.strip_suffix(']')) {
+                by_class.insert(c.to_string(), *n);
+            }
         }
         for (c, n) in &by_class {
             println!("[avm]   violations of class [{c}] = {n}{}", if open.iter().any(|k| &k.class == c) { " (known finding)" } else { "" });
